@@ -6,6 +6,7 @@ package main
 // EndBlock validator updates must be identical on all replicas; on a mismatch the raw KV of every store is diffed to localise.
 
 import (
+	"github.com/cosmos/cosmos-sdk/x/authz"
 	"bytes"
 	"os"
 	"encoding/hex"
@@ -124,6 +125,7 @@ func runReplicas(r *hx.R, n int, w *hx.W, _ []string) error {
 	type pending struct {
 		salt, rates string
 		period      int64
+		wrap        bool
 	}
 	prevoted := map[int]*pending{}
 	valOps := []int{1, 2}
@@ -199,9 +201,16 @@ func runReplicas(r *hx.R, n int, w *hx.W, _ []string) error {
 				if r.Chance(1, 4) {
 					rates = fmt.Sprintf("(unibi:uusd,%d.0)", r.Range(1, 90))
 				}
+				wrap := false
+				if r.Chance(1, 4) {
+					// a reveal that names pairs outside the whitelist next to whitelisted ones, sent inside an authz MsgExec (ordinary gas
+					// meter, not the fixed oracle meter): it is rejected, and how much gas the rejection costs is part of the tx result
+					rates = fmt.Sprintf("(unibi:uusd,%d.0)|(ubtc:uusd,%d.5)|(ufoo:ubar,3.0)|(uxxx:uyyy,1.5)|(uabc:udef,7.0)", r.Range(1, 9), r.Range(20000, 20005))
+					wrap = true
+				}
 				hash := oracletypes.GetAggregateVoteHash(salt, rates, val)
 				add("oracle-prevote", sign(v, 400_000, &oracletypes.MsgAggregateExchangeRatePrevote{Hash: hash.String(), Feeder: addr(v).String(), Validator: val.String()}))
-				prevoted[v] = &pending{salt, rates, period}
+				prevoted[v] = &pending{salt, rates, period, wrap}
 			}
 			p, ok := prevoted[v]
 			switch {
@@ -211,7 +220,13 @@ func runReplicas(r *hx.R, n int, w *hx.W, _ []string) error {
 				}
 			case p.period+1 == period:
 				if r.Chance(9, 10) { // sometimes a validator misses its reveal
-					add("oracle-vote", sign(v, 400_000, &oracletypes.MsgAggregateExchangeRateVote{Salt: p.salt, ExchangeRates: p.rates, Feeder: addr(v).String(), Validator: val.String()}))
+					vote := &oracletypes.MsgAggregateExchangeRateVote{Salt: p.salt, ExchangeRates: p.rates, Feeder: addr(v).String(), Validator: val.String()}
+					if p.wrap {
+						exec := authz.NewMsgExec(addr(v), []sdk.Msg{vote})
+						add("oracle-vote-exec-unknown-pairs", sign(v, 600_000, &exec))
+					} else {
+						add("oracle-vote", sign(v, 400_000, vote))
+					}
 				}
 				delete(prevoted, v)
 				newPrevote()
